@@ -182,7 +182,7 @@ Example C12_example_run :
   run_stats repaired_rules false false [(1, Some 1000); (2, None)]
             [(1, C12_example_recs); (2, [mkRec 9 true 1 (mkCall (Some [Some 0; Some 1]) false PSAbsent (Some 7));
                                          mkRec 59 true 1 (mkCall (Some [Some 0; Some 1]) false PSAbsent (Some 7))])] [] =
-  Some (mkOut [(1, mkD 9 5 1 1 2 2 3 5 200 200 200 7 6 4 (Some 0)); (2, mkD 2 2 0 0 1 2 2 2 50 50 50 2 2 2 None)]
+  ROk (mkOut [(1, mkD 9 5 1 1 2 2 3 5 200 200 200 7 6 4 (Some 0)); (2, mkD 2 2 0 0 1 2 2 2 50 50 50 2 2 2 None)]
               (Some (mkD 11 7 1 1 3 2 3 7 50 200 250 9 8 6 None))
               [(1, (Some 100, 100, 600, 3)); (1, (Some 200, 200, 400, 2)); (1, (Some 350, 350, 350, 1)); (2, (Some 7, 10, 60, 2))]
               [(1, (100, 100, 100)); (1, (200, 200, 200)); (1, (250, 250, 100)); (1, (350, 350, 350)); (1, (400, 400, 200));
